@@ -12,7 +12,8 @@ ID = "C16"
 RULE = ("One constrained node per program (int / float with units, str, bool; scalar, or 1-2-D int array for dimension "
         "bounds; definition or declaration) with any subset of: per-line options and !options lists (units of the same "
         "dimension), a !condition built from 1-3 comparisons of {?} with unit-bearing literals joined by && or || "
-        "(single comparisons included), an anchored !format, array dimension bounds; the final value is given directly "
+        "(single comparisons included; thresholds as literals - fractional ones against int nodes too - or held by another "
+        "node of the same type in another unit), an anchored !format, array dimension bounds; the final value is given directly "
         "or by 1-2 later modifications and is placed ON a boundary (equal, or equal after unit conversion; only with "
         "the tolerant operators == != <= >=), NEAR it (1e-4 relative away) or OFF it. The truth of every constraint is "
         "known by construction (never computed with re or the logical solver). Oracle: all satisfied -> parse() "
@@ -134,7 +135,8 @@ def numeric_case(draw):
                 else:
                     rel = 1e-4 if place == "near" else draw(st.sampled_from([0.5, 0.1, 2.0]))
                     if is_int:
-                        delta = 1 if place == "near" else draw(st.integers(2, 40))
+                        # 0.5: a fractional literal against an integer node (3 < 3.5, 2 m < 250 cm)
+                        delta = draw(st.sampled_from([1, 0.5])) if place == "near" else draw(st.integers(2, 40))
                         above = draw(st.booleans())
                         thr = base + delta if above else base - delta
                     else:
@@ -150,7 +152,12 @@ def numeric_case(draw):
                     # only == <= >= are tolerant; the strict operators and != at an equality reached through a unit
                     # conversion are decided by float rounding: write the threshold in the definition unit instead
                     txt, u2 = (str(thr) if is_int else fmt(thr)), None
-                comps.append({"op": op, "thr": txt, "unit": u2, "place": place, "flip": draw(st.booleans())})
+                # the threshold may live in another node of the same type (node-vs-node comparison, converted in place)
+                via_node = draw(st.integers(0, 2)) == 0 and not (is_int and not txt.lstrip("-").isdigit())
+                if via_node and dim and u2 is None:
+                    u2 = unit
+                comps.append({"op": op, "thr": txt, "unit": u2, "place": place, "flip": draw(st.booleans()),
+                              "node": via_node})
             cons.append({"k": "condition", "comps": comps, "join": joiner, "paren": draw(st.booleans())})
     nmods = draw(st.integers(0, 2))
     trail = []
@@ -276,6 +283,13 @@ def render(case):
         u = f" {case['unit']}" if case["unit"] else ""
         vals = case["trail"] + [case["final"]]
         txt = [(str(v) if case["int"] else fmt(v)) for v in vals]
+        nlim = 0
+        for c in case["cons"]:
+            for cm in (c["comps"] if c["k"] == "condition" else []):
+                if cm.get("node"):
+                    L.append(f"lim{nlim} {case['type']} = {cm['thr']}" + (f" {cm['unit']}" if cm["unit"] else ""))
+                    nlim += 1
+        nlim = 0
         if case["declared"]:
             L.append(f"x {case['type']}{u}")
             rest = txt
@@ -292,6 +306,9 @@ def render(case):
                 parts = []
                 for cm in c["comps"]:
                     rhs = cm["thr"] + (f" {cm['unit']}" if cm["unit"] else "")
+                    if cm.get("node"):
+                        rhs = f"{{?lim{nlim}}}"
+                        nlim += 1
                     if cm["flip"]:
                         op = {"<": ">", ">": "<", "<=": ">=", ">=": "<=", "==": "==", "!=": "!="}[cm["op"]]
                         parts.append(f"{rhs} {op} {{?}}")
@@ -421,6 +438,13 @@ def _check(case, v):
     v.label(case["kind"], "accepted" if case["expect_ok"] else "rejected", *("con_" + k for k in kinds))
     if boundary:
         v.label("boundary")
+    comps = [cm for c in case.get("cons", []) if c["k"] == "condition" for cm in c["comps"]]
+    if any(cm.get("node") for cm in comps):
+        v.label("node_vs_node")
+        if any(cm.get("node") and cm["unit"] != case.get("unit") for cm in comps[:-1]) and any(not cm.get("node") for cm in comps[1:]):
+            v.label("node_vs_node_other_unit_then_literal")
+    if case.get("int") and any("." in cm["thr"] for cm in comps):
+        v.label("int_vs_fractional_literal")
     if other_unit:
         v.label("other_unit")
     v.info = {"text": text}
